@@ -330,7 +330,7 @@ void Socket::writeHeaders()
     for (auto i = d->responseHeaders.constBegin(); i != d->responseHeaders.constEnd(); ++i) {
         header.append(i.key());
         header.append(": ");
-        header.append(d->responseHeaders.values(i.key()).join(", "));
+        header.append(i.value());
         header.append("\r\n");
     }
 
